@@ -124,6 +124,7 @@ STRENGTHENED = [
     ("seeded/C06-k", "named tuple = tuple is a DIRECT base", "C06: named tuple classes derived from a NamedTuple / namedtuple class; also the malformed kind 'keyword-only field given by position' (exposed the genuine defect D73)"),
     ("seeded/C07-k", "the condition of a conditional expression is not type-followed", "C07: conditional expressions with call sites in the condition"),
     ("seeded/C09-k", "a one-element tuple of [param]s is collapsed to its element", "C09: parameter texts 'x', / (5,) / ('p', 'q'), / () / [1, 2]"),
+    ("seeded/C14-k", "a called attribute is never read out of a dictionary literal", "typed generator flag callable_fields (C14, C02): {'f_a': <lambda>, ..}.f_a(x) - a field that holds a function, read by attribute and called on the spot"),
     ("seeded/C08-c", "generic subclass with more type parameters than its base uses", "C08 skeleton: Tag(Box[K], Generic[K,V]), Tag2(Box[V], ...), Swap(Pair[U,T], ...), HalfPair(Pair[T,int]), It2(Iterable[V], ...), TagInts(Tag[int,V]); class names taken from typing. This extension also exposed the genuine defects D29 and D30"),
 ]
 
